@@ -203,3 +203,31 @@ PROPS["C09"] = dict(
                  "out of keys); nothing is required of min_source() once every player is exhausted",
                  SAN_ASSUME],
 )
+
+# ----------------------------------------------------------------------------- C05
+PROPS["C05"] = dict(
+    units={"mwm": dict(src=["harness/C05_multiway_merge.cpp"])},
+    quick=[
+        R("mwm", "plain", 8, 60),
+        R("mwm", "asan", 8, 20),
+    ],
+    thorough=[
+        R("mwm", "plain", 16, 4000, timeout=7200),
+        R("mwm", "asan", 16, 1000, timeout=7200),
+    ],
+    rule="a case is 40 shapes; a shape = k in {0..9,16,17,33,64} sorted sequences (ascending or "
+         "descending comparator) with lengths 0..40 (sometimes one dominant sequence of up to 3000), "
+         "empty sequences at random positions, key universe 1..100000 (mostly tiny: heavy ties), "
+         "sometimes identical last elements, and a length in {0,1,total-1,total,random}. Every shape is "
+         "merged by all 4 algorithms x stable/unstable x sentinel/plain entry points for an 8-byte "
+         "(copy tree), a 32-byte (pointer tree) and a heap-owning element type; elements carry "
+         "(seq,pos) so the output is compared with the stable reference merge: keys position by "
+         "position, per-sequence prefix property, exact (seq,pos) for stable variants, returned end, "
+         "advanced begins, untouched ends/inputs/sentinel slots, canary behind the output. A class "
+         "is a distinct (entry point, algorithm, element type, k class, length class, empty seqs, "
+         "tie density) tuple.",
+    require=dict(any=["merges_checked", "shapes_with_empty_sequences", "shapes_with_partial_length"]),
+    assumptions=["std::stable_sort of the concatenation is the reference merge order",
+                 "sentinel entry points are driven with a readable slot behind every sequence holding a key "
+                 "strictly beyond all real keys, as the property states", SAN_ASSUME],
+)
